@@ -12,12 +12,23 @@ import (
 	"Havoc/pkg/logger"
 )
 
+// validAgentID reports whether an agent id can name an agent's loot directory:
+// a single path component other than "." and "..".
+func validAgentID(AgentID string) bool {
+	return AgentID != "" && AgentID != "." && AgentID != ".." && !strings.ContainsAny(AgentID, "/\\\x00")
+}
+
 func (l Logr) AddAgentInput(AgentType, AgentID, User, TaskID, Input string, time string) {
 	var (
 		DemonPath    = l.AgentPath + "/" + AgentID
 		DemonLogFile = DemonPath + "/Console_" + AgentID + ".log"
 		InputString  string
 	)
+
+	if !validAgentID(AgentID) {
+		logger.Error("Invalid agent id for the loot directory. abort")
+		return
+	}
 
 	// check if we don't have a path traversal
 	path := filepath.Clean(DemonLogFile)
@@ -53,6 +64,11 @@ func (l Logr) AddAgentRaw(AgentID, Raw string) {
 		DemonLogFile = DemonPath + "/Console_" + AgentID + ".log"
 	)
 
+	if !validAgentID(AgentID) {
+		logger.Error("Invalid agent id for the loot directory. abort")
+		return
+	}
+
 	// check if we don't have a path traversal
 	path := filepath.Clean(DemonLogFile)
 	if path != filepath.Clean(DemonPath) && !strings.HasPrefix(path, filepath.Clean(DemonPath)+"/") {
@@ -84,6 +100,11 @@ func (l Logr) DemonAddOutput(DemonID string, Output map[string]string, time stri
 		DemonPath    = l.AgentPath + "/" + filepath.Clean(DemonID)
 		DemonLogFile = DemonPath + "/Console_" + DemonID + ".log"
 	)
+
+	if !validAgentID(DemonID) {
+		logger.Error("Invalid agent id for the loot directory. abort")
+		return
+	}
 
 	// check if we don't have a path traversal
 	path := filepath.Clean(DemonLogFile)
@@ -138,6 +159,11 @@ func (l Logr) DemonAddDownloadedFile(DemonID, FileName string, FileBytes []byte)
 		DemonDownload    = DemonDownloadDir + "/" + FileName
 	)
 
+	if !validAgentID(DemonID) {
+		logger.Error("Invalid agent id for the loot directory. abort")
+		return
+	}
+
 	// check if we don't have a path traversal
 	path := filepath.Clean(DemonDownload)
 	if path != filepath.Clean(DemonDownloadDir) && !strings.HasPrefix(path, filepath.Clean(DemonDownloadDir)+"/") {
@@ -180,6 +206,11 @@ func (l Logr) DemonSaveScreenshot(DemonID, Name string, BmpBytes []byte) error {
 		DemonScreenshotDir = DemonPath + "/Screenshots"
 		DemonScreenshot    = DemonScreenshotDir + "/" + Name
 	)
+
+	if !validAgentID(DemonID) {
+		logger.Error("Invalid agent id for the loot directory. abort")
+		return errors.New("invalid agent id for the loot directory. abort")
+	}
 
 	// check if we don't have a path traversal
 	path := filepath.Clean(DemonScreenshot)
